@@ -56,6 +56,7 @@ class Recorder:
         self.evaluations = 0
         self.labels: Counter = Counter()
         self.nontrivial: set = set()
+        self.bulk_nontrivial = 0
         self.samples: list = []
         self.failures: list = []  # dicts
         self.best_failure = None
@@ -76,9 +77,14 @@ class Recorder:
         try:
             info = stage.check(case)
         except Violation as violation:
-            size = len(json.dumps(case, ensure_ascii=False, default=str))
+            shown_case, shown_stage = case, stage.name
+            if isinstance(violation.details, dict) and "replay_case" in violation.details:
+                # bulk cases (a whole range of a finite domain) name the single failing element themselves
+                shown_case = violation.details["replay_case"]
+                shown_stage = violation.details.get("replay_stage", stage.name)
+            size = len(json.dumps(shown_case, ensure_ascii=False, default=str))
             if self.best_failure is None or size <= self.best_failure[0]:
-                self.best_failure = (size, case, violation.clause, violation.message)
+                self.best_failure = (size, shown_case, violation.clause, violation.message, shown_stage)
             raise
         if self.best_failure is None:
             # only the generation phase counts as coverage
@@ -86,7 +92,16 @@ class Recorder:
             for label in labels:
                 self.labels[label] += 1
             units = info.get("_units") if isinstance(info, dict) else None
-            if units is not None:
+            bulk = info.get("_bulk") if isinstance(info, dict) else None
+            if bulk is not None:
+                # a case that enumerated a whole range of pairwise different elements itself
+                self.evaluations += bulk["evaluations"]
+                self.bulk_nontrivial += bulk["nontrivial"]
+                self.labels["generated-cases"] += 1
+                for sample in bulk.get("samples", []):
+                    if len(self.samples) < 4:
+                        self.samples.append(sample)
+            elif units is not None:
                 # one generated case covers several (input, assignment/schedule/...) units
                 self.evaluations += len(units)
                 self.labels["generated-cases"] += 1
@@ -111,8 +126,8 @@ class Recorder:
 
     def take_failure(self):
         if self.best_failure is not None:
-            _, case, clause, message = self.best_failure
-            self.failures.append({"stage": self.stage.name, "case": case, "clause": clause, "message": message})
+            _, case, clause, message, stage_name = self.best_failure
+            self.failures.append({"stage": stage_name, "case": case, "clause": clause, "message": message})
             self.best_failure = None
             self.after_failure = 0
 
@@ -122,6 +137,7 @@ class Recorder:
             "evaluations": self.evaluations,
             "labels": dict(self.labels),
             "nontrivial": sorted(self.nontrivial),
+            "bulk_nontrivial": self.bulk_nontrivial,
             "samples": self.samples,
             "failures": self.failures,
             "stopped": self.stopped,
@@ -341,8 +357,9 @@ def parent_main(args):
         for st in res["stages"]:
             agg = per_stage.setdefault(
                 st["stage"],
-                {"evaluations": 0, "labels": Counter(), "nontrivial": set(), "samples": [], "stopped": []},
+                {"evaluations": 0, "labels": Counter(), "nontrivial": set(), "samples": [], "stopped": [], "bulk": 0},
             )
+            agg["bulk"] += st.get("bulk_nontrivial", 0)
             agg["evaluations"] += st["evaluations"]
             agg["labels"].update(st["labels"])
             agg["nontrivial"].update(st["nontrivial"])
@@ -359,7 +376,7 @@ def parent_main(args):
 
     stage_defs = {s.name: s for s in prop.STAGES}
     evaluations = sum(a["evaluations"] for a in per_stage.values())
-    distinct = sum(len(a["nontrivial"]) for a in per_stage.values())
+    distinct = sum(len(a["nontrivial"]) + a["bulk"] for a in per_stage.values())
     samples = []
     for name, agg in per_stage.items():
         for sample in agg["samples"][:3]:
@@ -372,7 +389,7 @@ def parent_main(args):
         stages_cov[name] = {
             "kind": stage_defs[name].kind,
             "evaluations": agg["evaluations"],
-            "distinct_nontrivial": len(agg["nontrivial"]),
+            "distinct_nontrivial": len(agg["nontrivial"]) + agg["bulk"],
             "labels": dict(sorted(labels.items())),
             "exhaustive": bool(stage_defs[name].exhaustive),
         }
